@@ -33,6 +33,7 @@ add("C08", "vsched+genmc", "Scheduler level: ContinueOnError scenarios: every jo
 add("C09", "vsched+genmc", "Cancellation before the call, inside a job, and from a separate thread at every instant: no job body start is happens-after the cancel; Wait/the directive returns non-nil when cancel happens-before its return; with a gated (still running) job the caller is never stuck; generated-code level: every ctx-taking function receives the directive's context (marker value).", TB_GEN, T_GEN)
 add("C10", "genmc", "All Parallel programs with <=3 items from {Task, Tasks(2), Slice, Map} x signature variants x End hooks x collection contents (nil, empty, 1..3 elements) x N in {1,2,default}, map iteration order chosen by the explorer, all interleavings: each function/element/entry invoked exactly once with (i,s[i]) / (k,m[k]); End hook once, happens-after every element call of its collection, never after a failed or panicked element.", TB_GEN, T_GEN)
 add("C11", "genmc", "Flow shapes x every placement of predicates (no input / shared input / own input / upstream) and FallbackWith on <=2 tasks x predicate outcomes {true,false,panic} x task outcomes {ok,error,panic}, all interleavings: reference semantics for invocation, argument values, zero values, fallback substitution; predicates at most once.", TB_GEN, T_GEN)
+add("C12", "genmc-race", "The Go race detector runs under the controlled scheduler on every explored schedule: the repository's scheduler (rewritten onto the shim) and the cff-generated code are compiled with -race, the shim and the harness without; the native hand-offs between thread goroutines are hidden from the detector (runtime.RaceDisable) and each thread emits, on its own goroutine, exactly the acquire/release operations Go's runtime performs for the channel/close/context operation it executed. Explored: flow shapes, instrumented flows, predicate/fallback flows and Parallel programs x outcomes {ok, error, panic} x early return with another function still running (gated) by failure and by cancellation x two concurrent directives, N=2, all interleavings (sleep-set DFS). A report is confirmed by replaying its schedule in a fresh process.", TB_GEN + " For C12 additionally: the ThreadSanitizer runtime (bounded shadow/trace state: a racing pair is not reported on every run of the same schedule, so a clean run is evidence for the explored schedules only, never a proof); teardown of abandoned executions is serialised in view of the detector.", "stateless model checking of the implementation with the Go race detector as per-execution oracle: exhaustive sleep-set DFS over all interleavings under a controlled scheduler, happens-before of the modelled primitives re-created by race annotations")
 add("C13", "genmc-static", "Every well-formed graph-family program, every spelling/context feature program (imports, aliases, shadowing identifiers, enclosing contexts, hand-written corner cases), the programs of the run-time families and the accepted assignability pairs, in 4 tool configurations (base/source-map x auto-instrument): cff exit status, diagnostics, parse + compile of every output file without the cff tag, AST scan for leftover directive calls, no Go panic of the tool.", TB_STATIC, T_STATIC)
 add("C14", "genmc-static", "All flow structures with <=2 tasks over <=2 types (thorough 3) incl. every ill-formed one, all 3-task unary flows (cycles at every distance), predicates, all listing orders of named shapes, and the full 13x13 Slice/Map element-vs-parameter assignability lattice (go/types as judge): cff accepts iff the reference rules do; rejected => non-zero exit, diagnostic naming the file, no output for it.", TB_STATIC, T_STATIC)
 add("C15", "genmc", "Programs whose every directive argument is wrapped in a logging identity function (flows, all listing orders of a shape, predicates/fallbacks, emitters, instrument names, Parallel incl. Slice/Map collections and End hooks, non-constant Concurrency/ContinueOnError) and programs whose enclosing function declares identifiers named like generated ones, all interleavings: arguments evaluated exactly once, in source order, on the calling thread, happens-before every user function start; output compiles and binds to the user's variables.", TB_GEN, T_GEN)
